@@ -48,6 +48,8 @@ func init() {
 					madeSlicesFilledRule(P, R, "C18.k", pkg, 0)
 				}
 			}},
+		Rule{ID: "C18.m", Explain: "what is written can be read back: the text forms of revocation.Hash and of big.Int are written and read with the same base64 alphabet (the encoding objects referenced by String/MarshalJSON/MarshalText and by UnmarshalJSON/UnmarshalText of each type are the same set) - with the URL alphabet on one side only, three hashes in four cannot be read back.",
+			Run: func(P *Program, R *Report) { base64AlphabetsRule(P, R, "C18.m") }},
 		Rule{ID: "C18.j", Explain: "decoding into a value that was used before leaves nothing of its previous content: in Update.uncompress and EventList.uncompress every exported field of the receiver that the function assigns at all is assigned on every path to its return (a field that is only replaced when the message carries it keeps the events of the previous message).",
 			Run: func(P *Program, R *Report) { decodersResetRule(P, R, "C18.j") }},
 		Rule{ID: "C18.l", Explain: "no decoder or encoder drops a failure: in the Marshal*/Unmarshal*/compress/uncompress functions of the module and the key-file loaders and writers of gabikeys an error of a step is looked at (same rule as C08.g: the error a call returns has a use - a nil test or a return - before it is overwritten, shadowed or left behind).",
@@ -720,4 +722,60 @@ func decodersResetRule(P *Program, R *Report, rule string) {
 		}
 	}
 	R.decide(rule, "decoders:fields", "decoded fields of Update and EventList were found (>= 3)", n >= 3, fmt.Sprintf("%d", n), "")
+}
+
+// base64AlphabetsRule: a type's text encoder and decoder use the same base64 alphabet: the encoding objects
+// (base64.StdEncoding, URLEncoding, ...) referenced by the writing functions and by the reading functions of each
+// tabled pair are the same set.
+func base64AlphabetsRule(P *Program, R *Report, rule string) {
+	pairs := []struct {
+		name           string
+		write, read    []string
+	}{
+		{"revocation.Hash", []string{"revocation.(Hash).String", "revocation.(Hash).MarshalJSON"}, []string{"revocation.(*Hash).UnmarshalJSON"}},
+		{"big.Int", []string{"big.(*Int).MarshalJSON", "big.(*Int).MarshalText"}, []string{"big.(*Int).UnmarshalJSON", "big.(*Int).UnmarshalText"}},
+	}
+	encs := func(keys []string) (map[string]bool, int) {
+		out := map[string]bool{}
+		found := 0
+		for _, k := range keys {
+			fn := P.Func(k)
+			if fn == nil || fn.Blocks == nil {
+				continue
+			}
+			found++
+			seen := map[*ssa.Function]bool{}
+			var walk func(g *ssa.Function, d int)
+			walk = func(g *ssa.Function, d int) {
+				if g == nil || g.Blocks == nil || seen[g] || d > 2 {
+					return
+				}
+				seen[g] = true
+				allInstrs(g, func(i ssa.Instruction) {
+					for _, op := range i.Operands(nil) {
+						if gl, ok := (*op).(*ssa.Global); ok && gl.Pkg != nil && gl.Pkg.Pkg.Path() == "encoding/base64" {
+							out[gl.Name()] = true
+						}
+					}
+					if c, ok := i.(*ssa.Call); ok {
+						if h := staticCallee(c); h != nil && inModuleFn(h) && h.Pkg == g.Pkg {
+							walk(h, d+1)
+						}
+					}
+				})
+			}
+			walk(fn, 0)
+		}
+		return out, found
+	}
+	for _, p := range pairs {
+		w, nw := encs(p.write)
+		r, nr := encs(p.read)
+		if nw == 0 || nr == 0 {
+			R.und(rule, p.name+":base64", "encoder and decoder functions exist", fmt.Sprintf("%d writers, %d readers found", nw, nr), "")
+			continue
+		}
+		ws, rs := strings.Join(sortedKeys(w), ","), strings.Join(sortedKeys(r), ",")
+		R.decide(rule, p.name+":base64", "the text form is written and read with the same base64 alphabet", ws == rs && ws != "", "written with "+ws+", read with "+rs, "")
+	}
 }
